@@ -100,6 +100,7 @@ type ContractSet struct {
 	Funcs       map[string]*Contract
 	Specs       map[string]*SpecFunc // key: pkg-suffix + "." + name, plus bare name for stdlib-wide ones
 	Lemmas      []*Contract
+	ConstVars   map[string]bool
 	Guarded     []GuardedBy
 	FloatLemmas []*FloatLemma
 	Files       []string
@@ -113,7 +114,7 @@ func newContractSet() *ContractSet {
 var clauseKeywords = map[string]bool{
 	"func": true, "lemma": true, "spec": true, "pred": true, "props": true, "requires": true, "ensures": true, "let": true,
 	"invariant": true, "assert": true, "modifies": true, "nopanic": true, "panics_if": true, "pure": true, "inline": true,
-	"trusted": true, "ghost": true, "guarded_by": true, "unfold": true, "use": true, "float_lemma": true, "shape": true, "equals": true, "range": true, "entry": true, "opt": true, "loopmod": true, "package": true,
+	"trusted": true, "ghost": true, "guarded_by": true, "constvar": true, "unfold": true, "use": true, "float_lemma": true, "shape": true, "equals": true, "range": true, "entry": true, "opt": true, "loopmod": true, "package": true,
 }
 
 // specLines extracts the //@ lines of a file as (text, line number)
@@ -393,6 +394,17 @@ func (cs *ContractSet) loadContractFile(path, pkgSuffix string) {
 			}
 			cs.Specs[curPkg+"."+name] = sf
 			cur = nil
+		case "constvar":
+			// constvar Name[, Name]: package-level integer variables that the engine may read as the constants they are
+			// initialised with -- checked: nothing in the program assigns them or takes their address
+			for _, n := range strings.Split(it.rest, ",") {
+				if n = strings.TrimSpace(n); n != "" {
+					if cs.ConstVars == nil {
+						cs.ConstVars = map[string]bool{}
+					}
+					cs.ConstVars[curPkg+"."+n] = true
+				}
+			}
 		case "guarded_by":
 			// guarded_by Type.field : Type.lock
 			parts := strings.SplitN(it.rest, ":", 2)
